@@ -9,16 +9,15 @@ use core::cell::RefCell;
 
 pub use crate::sqlite::{Error, Result};
 
-pub const MAX_PARAMS: usize = 8;
-pub const MAX_COLS: usize = 6;
-pub const MAX_ROWS: usize = 6;
+pub const MAX_PARAMS: usize = 6;
+pub const MAX_COLS: usize = 5;
+pub const MAX_ROWS: usize = 4;
 
 #[derive(Clone, Copy, Debug, PartialEq, Eq)]
 pub enum Val {
     Null,
     U64(u64),
     I64(i64),
-    Id([u8; 16]),
 }
 
 pub trait ToVal {
@@ -37,6 +36,22 @@ impl ToVal for i64 {
 impl ToVal for usize {
     fn to_val(&self) -> Val {
         Val::U64(*self as u64)
+    }
+}
+impl ToVal for str {
+    fn to_val(&self) -> Val {
+        Val::Null // text columns are opaque to the models
+    }
+}
+impl ToVal for bool {
+    fn to_val(&self) -> Val {
+        Val::U64(*self as u64)
+    }
+}
+impl ToVal for [u8; 16] {
+    fn to_val(&self) -> Val {
+        // 16-byte ids are opaque to the models; the first 8 bytes stand for them
+        Val::U64(u64::from_le_bytes([self[0], self[1], self[2], self[3], self[4], self[5], self[6], self[7]]))
     }
 }
 impl ToVal for Val {
@@ -75,6 +90,15 @@ impl FromVal for i64 {
         match v {
             Val::I64(x) => Ok(x),
             Val::U64(x) if x <= i64::MAX as u64 => Ok(x as i64),
+            _ => Err(Error::Other(1)),
+        }
+    }
+}
+impl FromVal for bool {
+    fn from_val(v: Val) -> Result<Self> {
+        match v {
+            Val::U64(x) => Ok(x != 0),
+            Val::I64(x) => Ok(x != 0),
             _ => Err(Error::Other(1)),
         }
     }
@@ -415,10 +439,44 @@ impl<'c, B: Backend> Statement<'c, B> {
         let set = self.conn.db.borrow_mut().query(self.sql, &params.bind())?;
         Ok(Rows { set, next: 0 })
     }
+    /// rusqlite's `query_map`: an iterator of `f(row)` results
+    pub fn query_map<T, P: Params, F: FnMut(&Row) -> Result<T>>(&mut self, params: P, f: F) -> Result<MappedRows<F>> {
+        let set = self.conn.db.borrow_mut().query(self.sql, &params.bind())?;
+        Ok(MappedRows { set, next: 0, f })
+    }
     pub fn exists<P: Params>(&mut self, params: P) -> Result<bool> {
         let set = self.conn.db.borrow_mut().query(self.sql, &params.bind())?;
         Ok(set.len > 0)
     }
+}
+
+pub struct MappedRows<F> {
+    set: RowSet,
+    next: usize,
+    f: F,
+}
+impl<T, F: FnMut(&Row) -> Result<T>> Iterator for MappedRows<F> {
+    type Item = Result<T>;
+    fn next(&mut self) -> Option<Result<T>> {
+        if self.next < self.set.len {
+            let r = (self.f)(&self.set.rows[self.next]);
+            self.next += 1;
+            Some(r)
+        } else {
+            None
+        }
+    }
+}
+
+/// rusqlite's positional `params![a, b, ..]`
+#[macro_export]
+macro_rules! params {
+    () => { $crate::sql::ParamList::empty() };
+    ($($val:expr),+ $(,)?) => {{
+        let mut p = $crate::sql::ParamList::empty();
+        $( p.push(0, $crate::sql::ToVal::to_val(&$val)); )+
+        p
+    }};
 }
 
 pub trait OptionalExtension<T> {
